@@ -49,12 +49,16 @@ class C07(Prop):
         for kind in ("U", "I", "SM"):
             for w in (8, 16, 32, 64):
                 for len_ in range(1, w + 1):
-                    offs = list(range(24)) if thorough and len_ <= 16 else sorted(set(
-                        [0, 7] + [r.randrange(24) for _ in range(3 if not thorough else 8)]))
-                    vals = self.values(r, kind, w, len_, ex)
-                    if len(vals) > 64 and not thorough:
-                        vals = r.sample(vals, 64)
+                    # every alignment and every span for every width (0..23), a few offsets deep inside a body,
+                    # the full value set at a seeded subset of offsets and the boundary values everywhere
+                    full = set(range(24)) if len_ <= 16 else set([0, 7] + [r.randrange(24) for _ in range(8)])
+                    offs = list(range(24)) + [8 * r.randrange(3, 1000) + k for k in r.sample(range(8), 3)]
+                    vals_all = self.values(r, kind, w, len_, ex)
+                    m_ = 1 << len_
+                    edge = sorted({0, 1 % m_, m_ - 1, m_ >> 1, (m_ >> 1) - 1 if m_ > 1 else 0, (m_ >> 1) + 1 if m_ > 2 else 0,
+                                   r.getrandbits(len_), r.getrandbits(len_)})
                     for off in offs:
+                        vals = vals_all if off in full else edge
                         nbytes = (off + len_ + 7) // 8 + r.choice([0, 1])
                         nontrivial = (off % 8 != 0) or ((off + len_ - 1) // 8 > off // 8)
                         bgs = [bytes(nbytes), bytes([255] * nbytes), rand_bytes(r, nbytes)]
@@ -81,9 +85,10 @@ class C07(Prop):
                                 bg = rand_bytes(r, nb)
                                 yield (f"PARSE {kind} {w} {nb * 8 + beyond} {len_} {hx(bg)}", "cursor-beyond-end", True)
                                 yield (f"PUT {kind} {w} {nb * 8 + beyond} {len_} {r.getrandbits(w)} {hx(bg)}", "cursor-beyond-end", True)
-                    # overflow path
-                    off = r.randrange(24)
-                    nbytes = max(0, (off + len_ - 1) // 8)
-                    bg = rand_bytes(r, nbytes)
-                    yield (f"PUT {kind} {w} {off} {len_} {r.getrandbits(w)} {hx(bg)}", "overflow", True)
-                    yield (f"PARSE {kind} {w} {off} {len_} {hx(bg)}", "overflow", True)
+                    # overflow path: the field overhangs the buffer by 1..8 bits (every alignment), and by whole bytes
+                    for off in list(range(16)) + [r.randrange(16, 4000)]:
+                        for short in (0, 1, r.choice([2, 3])):
+                            nbytes = max(0, (off + len_ - 1) // 8 - short)
+                            bg = rand_bytes(r, nbytes)
+                            yield (f"PUT {kind} {w} {off} {len_} {r.getrandbits(w)} {hx(bg)}", "overflow", True)
+                            yield (f"PARSE {kind} {w} {off} {len_} {hx(bg)}", "overflow", True)
